@@ -96,6 +96,26 @@ class C19(vlib.Check):
                         p.ops.append('set,%d,%s' % (o, hx(rstr(rng, rng.choice([2, 20])))))
                     p.ops += ['reads,0', 'del,0', 'del,1']
                     yield 'str 4 %s failat=%d@%d' % (';'.join(p.ops), k, step)
+        # --- operations that throw by themselves (ill-formed data) while an allocation of one of their temporaries is
+        #     made to fail: bad_alloc instead of the operation's own exception, same guarantees
+        #     (the last temporary stands for the block that holds the exception's message: std::runtime_error copies it)
+        bad_long = b'a' * 20 + b'\xbf'
+        bad_short = b'ab\xc3'
+        msg = '00' * 40
+        for tgt in (3, 16, 40):
+            for bad in (bad_long, bad_short):
+                for kind in ('setfail', 'setmfail', 'ctorbuffail', 'setcfail', 'ctorfail'):
+                    for k in (0, 1, 2):
+                        ops = ['new,0,' + hx(rstr(rng, tgt)), 'new,1,' + hx(rstr(rng, 20)),
+                               '%s,0,%s,M=throw:unicode_error:%s/%s' % (kind, hx(bad), hx(bad), msg),
+                               'reads,0', 'set,0,' + hx(rstr(rng, 20)), 'del,0', 'del,1']
+                        yield 'str 4 %s failat=%d@2' % (';'.join(ops), k)
+            for bad in (b'00' * 20 + b'x0', b'4' * 33, b'zz'):
+                temps = hx(bad) + ('' if len(bad) % 2 else '/' + hx(b'\0' * (len(bad) // 2))) + '/' + msg
+                for k in (0, 1, 2, 3):
+                    ops = ['new,0,' + hx(rstr(rng, tgt)), 'hexfail,0,%s,M=throw:codec_error:%s' % (hx(bad), temps),
+                           'reads,0', 'set,0,' + hx(rstr(rng, 20)), 'del,0']
+                    yield 'str 4 %s failat=%d@1' % (';'.join(ops), k)
         # --- split: the pieces and the vector's storage are allocated in turn (std::vector is an oracle: its blocks are
         #     stood for by dummies); with at least two pieces there are at least two allocations, each of them faulted
         for size in (5, 17, 40, 90):
@@ -227,7 +247,10 @@ class C19(vlib.Check):
         threw = a[fstep][0].startswith('r=bad_alloc')
         for i, st in enumerate(a[:-1]):
             r = st[0].split(',')[0]
-            if r not in ('r=ok', 'r=bad_alloc') or (r == 'r=bad_alloc' and i != fstep):
+            own = None
+            if i == fstep and ',M=throw:' in ops[i]:
+                own = 'r=' + ops[i].split(',M=throw:')[1].split(':')[0]     # the exception the operation throws by itself
+            if r not in ('r=ok', 'r=bad_alloc', own) or (r == 'r=bad_alloc' and i != fstep):
                 return False
             if st[-1] != 'sh=0':
                 return False
